@@ -74,6 +74,8 @@ type Exec struct {
 	curBlks   []*ssa.BasicBlock
 	reachMemo map[*ssa.Function][][]bool
 	targetPkgs map[string]bool
+	private   []privCell
+	constGlobals map[string]Val
 	tagFacts    []*Term
 	sealedImpls map[string][]int
 	pureSeen  map[string]bool
@@ -142,7 +144,7 @@ type loopInfo struct {
 
 func newExec(prog *Program, cs *Contracts) *Exec {
 	return &Exec{prog: prog, cs: cs, notes: map[string]bool{}, assumed: map[string]bool{}, names: map[string]int{},
-		typeIDs: map[string]int{}, typeOf: map[int]types.Type{}, globals: map[*ssa.Global]int{}, sealedImpls: map[string][]int{}, reachMemo: map[*ssa.Function][][]bool{}, targetPkgs: map[string]bool{}}
+		typeIDs: map[string]int{}, typeOf: map[int]types.Type{}, globals: map[*ssa.Global]int{}, sealedImpls: map[string][]int{}, reachMemo: map[*ssa.Function][][]bool{}, targetPkgs: map[string]bool{}, constGlobals: map[string]Val{}}
 }
 
 func (ex *Exec) note(f string, a ...any) {
